@@ -385,6 +385,106 @@ def _oracle(case, out):
         if st != 0 or val != cp0:
             return "Repeat::read returned %r, expected Ok(%d)" % ((st, val), cp0)
         return vec_check("Repeat::read", l0, cp0, got, 0, [b] * cp0)
+    elif op in (20, 21, 22):
+        return _oracle_vectored(op, c, o, st, val)
+    return None
+
+
+def take_members(c):
+    nm = c.take()
+    return [(c.take(), c.take()) for _ in range(nm)]
+
+
+def nonseq(ms):
+    """some member with spare capacity is followed by a non-empty one"""
+    gap = False
+    for ln, cp in ms:
+        if gap and ln > 0:
+            return True
+        if ln < cp:
+            gap = True
+    return False
+
+
+def members_check(name, ms, o, data):
+    """the first len(data) bytes of the concatenated CAPACITIES hold data, in member order,
+    from offset 0 of every member; every other cell and every length not covered is unchanged"""
+    p = 0
+    for i, (ln, cp) in enumerate(ms):
+        got = dec_vec(o, cp)
+        chunk = data[p:p + cp]
+        r = vec_check("%s member %d" % (name, i), ln, cp, got, 0, chunk)
+        if r:
+            return r
+        p += cp
+    return None
+
+
+def _oracle_vectored(op, c, o, st, val):
+    if op == 20:
+        ms = take_members(c)
+        sc = c.sched()
+        src = c.rest()
+        total = sum(cp for _, cp in ms)
+        # the members come first in the output, then the unconsumed source
+        mark = o.i
+        for _, cp in ms:
+            dec_vec(o, cp)
+        remaining = o.take()
+        consumed = len(src) - remaining
+        if consumed < 0 or consumed > total:
+            return "read_vectored_exact consumed %d bytes for a total capacity of %d" % (consumed, total)
+        o.i = mark
+        r = members_check("read_vectored_exact", ms, o, src[:consumed])
+        if r:
+            return r
+        kinds = {a for (k, a) in sc if k == 1 and a != 3}
+        if st == 0 and (consumed != total or val != total):
+            return ("read_vectored_exact Ok but %d of %d bytes of capacity filled (members with spare "
+                    "capacity left unfilled)" % (consumed, total))
+        if st == 1 and val == 3:
+            return "read_vectored_exact surfaced Interrupted instead of retrying"
+        if st == 1 and val != 1 and val not in kinds:
+            return "read_vectored_exact error kind %d never produced by the stream" % val
+        if st == 1 and val == 1 and consumed == total and total > 0:
+            return "read_vectored_exact reports UnexpectedEof though the whole capacity was filled"
+    elif op == 21:
+        pos = c.take()
+        ms = take_members(c)
+        this = c.rest()
+        s = this[min(pos, len(this)):]
+        total = sum(cp for _, cp in ms)
+        if len(s) >= total:
+            if st != 0 or val != total:
+                return "read_vectored_exact_at returned %r, expected Ok (capacity %d)" % ((st, val), total)
+            return members_check("read_vectored_exact_at", ms, o, s[:total])
+        if st != 1 or val != 1:
+            return ("read_vectored_exact_at returned %r for a source of %d bytes and a capacity of %d, expected "
+                    "UnexpectedEof" % ((st, val), len(s), total))
+        return members_check("read_vectored_exact_at", ms, o, s)
+    else:
+        ms = take_members(c)
+        kind, arg = c.take(), c.take()
+        src = c.rest()
+        first = next((i for i, (_, cp) in enumerate(ms) if cp > 0), None)
+        if first is None:
+            exp, k = (0, 0), 0
+        elif kind == 0:
+            k = min(arg, ms[first][1], len(src))
+            exp = (0, k)
+        elif kind == 1:
+            exp, k = (1, arg), 0
+        else:
+            exp, k = (0, 0), 0
+        if (st, val) != exp:
+            return "default read_vectored returned %r, expected %r" % ((st, val), exp)
+        for i, (ln, cp) in enumerate(ms):
+            got = dec_vec(o, cp)
+            r = vec_check("read_vectored member %d" % i, ln, cp, got, 0, src[:k] if i == first else [])
+            if r:
+                return r
+        if o.take() != len(src) - k:
+            return "default read_vectored: source not advanced by the count"
     return None
 
 
@@ -401,8 +501,10 @@ class C11(diffcheck.DiffProp):
     gen = gen_c11
     counts = {"quick": 3000, "thorough": 60000}
     uses_consts = True
-    rule = ("cases = corpus (minimised earlier failures, D-witnesses) + random programs over 18 helper "
-            "operations (60% friendly / 40% adversarial schedules, capacities 0..17, payloads 0..80); "
+    rule = ("cases = corpus (minimised earlier failures, D-witnesses) + random programs over 21 helper "
+            "operations (60% friendly / 40% adversarial schedules, capacities 0..17, payloads 0..80; vectored-exact "
+            "reads over 0..5 Vec members with pre-existing content and spare capacity, 65% in sequential-fill "
+            "order); "
             "distinct = distinct case lines; non-trivial = not rejected and some byte/count moved")
     trusted_base = [
         "Coq 8.16.1 kernel (coqc, full .vo build); vm_compute only in witness/example lemmas",
@@ -427,6 +529,22 @@ class C11(diffcheck.DiffProp):
             return "C11-bufreader-cap0"
         if case[0] == 5 and case[1] == 0:
             return "C11-copy-bufsize0"
+        if case[0] == 21:
+            # [u8]::read_vectored_at records with advance_vec_to (C10 findings
+            # C10-advance-vec-to-noop / C10-vectored-set-len-by-capacity / C10-vectored-slice-
+            # uninit-offset): reachable through read_vectored_exact_at when the source is shorter
+            # than the total capacity and the members are not in sequential-fill order
+            try:
+                c = Cur(case)
+                c.take()
+                pos = c.take()
+                ms = take_members(c)
+                this = c.rest()
+            except IndexError:
+                return None
+            short = len(this[min(pos, len(this)):]) < sum(cp for _, cp in ms)
+            if short and nonseq(ms):
+                return "C11-read-vectored-exact-at-short-nonseq"
         return None
 
 
